@@ -13,15 +13,17 @@
   empty arrivals = polls that find nothing new); `S = script.flatten` is the stream itself.
   `markerOf readRc` = the return-code marker for stdout (`readRc = true`), nothing for stderr.
 
-  NOT proved here: that the index-level model of cbuf.c (`indexOps`, the instance executed
-  against the real code) refines `fifoOps` -- that is property C13 (both instances are run
-  against the real dsh.c/cbuf.c by checks/c05.py on every case).  Threads, the kernel and
-  poll() are not modelled (real-process runs in the check).
+  The index-level model of cbuf.c (`indexOps`, the instance executed against the real code)
+  simulates `fifoOps` (Relay/IndexSim.lean `idx_sim`, on top of property C13's refinement
+  lemmas), so the `_index` theorems below state the same of the index-level relay without any
+  hypothesis about the buffer.  Threads, the kernel and poll() are not modelled (real-process
+  runs in the check).
 -/
 import PdshVerif.Relay.TailLemmas
 import PdshVerif.Relay.Interleave
 import PdshVerif.Relay.Simulation
 import PdshVerif.Relay.DomIff
+import PdshVerif.Relay.IndexSim
 
 namespace PdshVerif.C05
 open PdshVerif.Relay
@@ -163,21 +165,46 @@ theorem relay_lossless_any_interleaving (cfg : Cfg) (names : Nat → Bytes) {siz
   rw [global_stream_is_runStream fifoOps cfg names b0 evs k script hk]
   exact relay_lossless cfg (names k.1) (names 0) (strmNo k) (!k.2) hm1 hm2 hb0 script hdom
 
-/-- TRANSFER to the index-level relay (`indexOps`: the model of cbuf.c's indices and data array,
-    the instance that is executed against the real code).  HYPOTHESIS `hsim`: the buffer-level
-    obligations `Sim indexOps fifoOps R` of Relay/Simulation.lean -- related buffers answer the
-    three cbuf calls alike and stay related -- for some relation `R` that holds of the freshly
-    created buffers.  That is property C13's refinement statement (plus the two scalar policy
-    facts); it is NOT proved here.  Under it the index-level relay is lossless as well. -/
-theorem relay_lossless_index {R : Cbuf.Cbuf → PBuf → Prop} (hsim : Sim indexOps fifoOps R)
-    (cfg : Cfg) (host t0host : Bytes) (strm : Nat) (readRc : Bool)
-    {sizeMeta : Nat} (hm1 : 1 ≤ sizeMeta) (hm2 : sizeMeta ≤ 800) {a0 : Cbuf.Cbuf} {b0 : PBuf}
-    (hb0 : mkFifoBuf sizeMeta = some b0) (hR : R a0 b0) (script : List Bytes)
+/-- THE SAME FOR THE INDEX-LEVEL RELAY, UNCONDITIONALLY.  `indexOps` is the model of cbuf.c's
+    indices and data array (Cbuf/Model.lean) -- the instance of the relay that is executed
+    against the real dsh.c/cbuf.c call by call.  It simulates the FIFO+policy instance
+    (`Relay.idx_sim`, from property C13's refinement lemmas plus the growth/return-value policy
+    facts of Relay/IndexSim.lean), so from the buffer `cbuf_create (64, 131072)` yields it makes
+    the same stdio calls: closed form, th->rc = 0 ... -/
+theorem relay_closed_form_index (cfg : Cfg) (host t0host : Bytes) (strm : Nat) (readRc : Bool)
+    {sizeMeta : Nat} (hm1 : 1 ≤ sizeMeta) (hm2 : sizeMeta ≤ 800) {a0 : Cbuf.Cbuf}
+    (ha0 : mkIndexBuf sizeMeta = some a0) (script : List Bytes)
+    (hdom : Spec.Dom05 (markerOf readRc) script.flatten = true) :
+    (runStream indexOps cfg host t0host strm readRc a0 script).ems =
+      (Spec.lines script.flatten).map (fun l => (⟨strm, labelPrefix cfg.labels cfg.keep host ++ l⟩ : Em)) ++
+        tailEms cfg host strm ((Spec.tail script.flatten).length + 1) (Spec.tail script.flatten) false ∧
+    (runStream indexOps cfg host t0host strm readRc a0 script).rc = 0 := by
+  obtain ⟨b0, hb0⟩ := mkFifoBuf_some sizeMeta
+  obtain ⟨e1, e2⟩ := runStream_index_eq_fifo cfg host t0host strm readRc (by omega) ha0 hb0 script
+  rw [e1, e2]
+  exact relay_closed_form cfg host t0host strm readRc hm1 hm2 hb0 script hdom
+
+/-- ... and is lossless for every stream in the domain and every chunking -/
+theorem relay_lossless_index (cfg : Cfg) (host t0host : Bytes) (strm : Nat) (readRc : Bool)
+    {sizeMeta : Nat} (hm1 : 1 ≤ sizeMeta) (hm2 : sizeMeta ≤ 800) {a0 : Cbuf.Cbuf}
+    (ha0 : mkIndexBuf sizeMeta = some a0) (script : List Bytes)
     (hdom : Spec.Dom05 (markerOf readRc) script.flatten = true) :
     written (runStream indexOps cfg host t0host strm readRc a0 script).ems =
       Spec.render (labelPrefix cfg.labels cfg.keep host) script.flatten := by
-  rw [(runStream_sim hsim cfg host t0host strm readRc a0 b0 hR script).1]
+  obtain ⟨b0, hb0⟩ := mkFifoBuf_some sizeMeta
+  rw [(runStream_index_eq_fifo cfg host t0host strm readRc (by omega) ha0 hb0 script).1]
   exact relay_lossless cfg host t0host strm readRc hm1 hm2 hb0 script hdom
+
+/-- ... also with many hosts streaming at once, for every interleaving -/
+theorem relay_lossless_index_any_interleaving (cfg : Cfg) (names : Nat → Bytes) {sizeMeta : Nat}
+    (hm1 : 1 ≤ sizeMeta) (hm2 : sizeMeta ≤ 800) {a0 : Cbuf.Cbuf} (ha0 : mkIndexBuf sizeMeta = some a0)
+    (evs : List (Key × LEv)) (k : Key) (script : List Bytes)
+    (hk : (evs.filter (fun e => e.1 = k)).map (·.2) = script.map LEv.feed ++ [LEv.finish])
+    (hdom : Spec.Dom05 (markerOf (!k.2)) script.flatten = true) :
+    written (logOf (evs.foldl (gstep indexOps cfg names) (ginit a0)) k) =
+      Spec.render (labelPrefix cfg.labels cfg.keep (names k.1)) script.flatten := by
+  rw [global_stream_is_runStream indexOps cfg names a0 evs k script hk]
+  exact relay_lossless_index cfg (names k.1) (names 0) (strmNo k) (!k.2) hm1 hm2 ha0 script hdom
 
 /-! ### `_extract_rc`: why the marker is excluded from the domain; the two C08 switches
 
